@@ -110,6 +110,16 @@ class Spike(Case):
                 if self.params["fail"]:
                     v["fail"] = f_
                 yield v
+        # neighbours of very large magnitude and opposite sign: their mean is small and representable, but a
+        # rearranged reference (difference of the neighbours first) leaves the float range
+        for xs in ([1e308, 0.0, -1e308], [-1e308, 5.0, 1e308, 0.0], [0.0, 1e308, 0.0, -1e308, 0.0]):
+            for s_, f_ in ((1, 2), (2, 1), (4, 1e300)):
+                v = {"n": len(xs), "x": list(xs), "keep": 1}
+                if self.params["sus"]:
+                    v["sus"] = s_
+                if self.params["fail"]:
+                    v["fail"] = f_
+                yield v
 
 
 def cases():
